@@ -309,6 +309,9 @@ pub struct Plan {
     /// operation is answered with (None: it stays unset)
     #[serde(default)]
     pub env: Option<String>,
+    /// the allocator seam: byte buffers allocated during the run start at addresses that are 1 modulo 8
+    #[serde(default)]
+    pub odd_alloc: bool,
     pub steps: Vec<Step>,
 }
 
